@@ -436,7 +436,7 @@ theorem gcStep_PND (acc : Ctx × Option Nat) (k : Nat) {l : List Nat} (hjo : JO 
 
 theorem gc_PND (c : Ctx) (a : Option Nat) {l : List Nat} (hjo : JO c l a) (hF : Forest c.seg)
     (hc : ∀ k x, c.smap.getD k none = some x → x < c.seg.slots.size) (h : PND c.seg) : PND (collectGarbage c a).1.seg := by
-  unfold collectGarbage
+  rw [collectGarbage_fst]; unfold gcCells
   generalize (List.range (c.size - 1)) = ks
   have : ∀ (ks : List Nat) (acc : Ctx × Option Nat), JO acc.1 l acc.2 → Forest acc.1.seg →
       (∀ k x, acc.1.smap.getD k none = some x → x < acc.1.seg.slots.size) → PND acc.1.seg → PND (ks.foldl gcStep acc).1.seg := by
